@@ -151,6 +151,7 @@ class DictCache(collections.abc.MutableMapping):
     def __delitem__(self, key):
         if key in self.long_term_keys:
             self.long_term_keys.remove(key)
+            self.short_term_cache.pop(key, None)
             self.long_term_storage.delete(key)
 
     def __contains__(self, key):
